@@ -93,6 +93,12 @@ func (p *TriggerPool) sendJobsForExecution(numJobs int) {
 
 	p.jobsAvailableCond.L.Unlock()
 
+	// work that can no longer start because the iteration limit has been reached
+	// is discarded silently, it is not reported as dropped
+	if p.manager.MaxIterationsReached() {
+		return
+	}
+
 	for range jobsDiscarded {
 		p.manager.activeScenario.RecordDroppedIteration()
 	}
